@@ -205,8 +205,8 @@ def bins_check(ctx, emd):
                     abs(e[0] - lo) <= 1e-12 * abs(lo) and abs(e[-1] - hi) <= 1e-12 * abs(hi) and \
                     np.allclose(c, (e[:-1] + e[1:]) / 2, rtol=1e-14, atol=0)
                 if not ok:
-                    ctx.violation('define_hist_bins(%r,%r,%r,%r) edges/centres malformed' % (lo, hi, nb, scale),
-                                  {'fn': 'define_hist_bins', 'args': [lo, hi, nb, scale]})
+                    # the helper that PROPOSES bin sets is outside the statement of C10 / C11 (which take the edges as given)
+                    ctx.extra('define_hist_bins(%r,%r,%r,%r) edges/centres malformed' % (lo, hi, nb, scale))
     return n
 
 
